@@ -204,12 +204,70 @@ def counter_sibling(ctx, rep, clause):
        'the recursion budget is not max_mods plus the starting count', b.loc(), clause)
 
 
+def single_expansion(ctx, rep, clause):
+    """every form is produced by expanding a *base* annotation once: a value that came out of the variable builder
+    must not be fed into it again (its variable modifications would count as pre-existing, so up to max_mods more are
+    added, and the same form is reached along two routes)"""
+    program = ctx.program
+    f = program.func(f'{MB}:apply_variable_mods')
+    builder = '_variable_mods_builder'
+
+    def has_builder(e):
+        return any(isinstance(x, ast.Call) and isinstance(x.func, ast.Name) and x.func.id == builder for x in ast.walk(e))
+    tainted = set()
+    changed = True
+    while changed:
+        changed = False
+        for n in walk_own(f.node):
+            new = None
+            if isinstance(n, ast.Call) and isinstance(n.func, ast.Attribute) and n.func.attr in ('extend', 'append') and \
+                    isinstance(n.func.value, ast.Name) and n.args:
+                if has_builder(n.args[0]) or any(isinstance(x, ast.Name) and x.id in tainted for x in ast.walk(n.args[0])):
+                    new = n.func.value.id
+            elif isinstance(n, ast.Assign) and isinstance(n.targets[0], ast.Name):
+                if has_builder(n.value) or any(isinstance(x, ast.Name) and x.id in tainted for x in ast.walk(n.value)):
+                    new = n.targets[0].id
+            elif isinstance(n, (ast.For, ast.comprehension)) and isinstance(n.target, ast.Name):
+                if any(isinstance(x, ast.Name) and x.id in tainted for x in ast.walk(n.iter)):
+                    new = n.target.id
+            if new is not None and new not in tainted:
+                tainted.add(new)
+                changed = True
+    k = 0
+    cx = Canon(f.node)
+    for n in sorted((x for x in walk_own(f.node) if isinstance(x, ast.Call)), key=lambda x: x.lineno):
+        if isinstance(n, ast.Call) and isinstance(n.func, ast.Name) and n.func.id == builder and n.args:
+            k += 1
+            # a name bound more than once means what its nearest preceding binding gave it
+            arg = n.args[0]
+            if isinstance(arg, ast.Name):
+                binds = [a for a in walk_own(f.node) if isinstance(a, ast.Assign) and isinstance(a.targets[0], ast.Name)
+                         and a.targets[0].id == arg.id and a.lineno < n.lineno]
+                if binds:
+                    arg = max(binds, key=lambda a: a.lineno).value
+            again = sorted({x.id for x in ast.walk(arg) if isinstance(x, ast.Name) and x.id in tainted} |
+                           ({builder} if has_builder(arg) else set()))
+            kwnames = {kw.arg for c_ in ast.walk(arg) if isinstance(c_, ast.Call) for kw in c_.keywords}
+            site = 'N-terminal' if 'nterm_mods' in kwnames else 'C-terminal' if 'cterm_mods' in kwnames else 'residue-only'
+            looped = any(isinstance(x, ast.Name) and any(kind == 'each' for kind, _pl in cx.bindings.get(x.id, []))
+                         for x in ast.walk(arg))
+            ob(rep, 'SIB-expand', f.fq, f'{site} expansion' + (' over the N-terminal forms' if looped else '') +
+               ' starts from a base annotation, not from an already expanded form',
+               not again, 'argument does not derive from a result of the builder',
+               f'`{norm_stmt(n)[:80]}` expands a value that derives from an earlier result of {builder} (through '
+               f'{again}): the variable modifications already added count as pre-existing, so forms with more than '
+               f'max_mods new sites and duplicate forms are returned (N-terminal + C-terminal + residue rules together)',
+               f.loc(n), clause)
+    rep.floor('SIB-expand', 'calls of the variable builder in apply_variable_mods', k, 3)
+
+
 def check(ctx, rep):
     rep.explanation = EXPLANATION
     an, program = ctx.analyzer, ctx.program
     mode_semantics(ctx, rep, 'C13a')
     site_computation(ctx, rep, 'C13b')
     counter_sibling(ctx, rep, 'C13a')
+    single_expansion(ctx, rep, 'C13a')
     for fname in ('apply_static_mods', 'apply_variable_mods', '_variable_mods_builder', '_apply_variable_mods_rec'):
         fq = f'{MB}:{fname}'
         s = an.summaries.get((fq, ()))
